@@ -393,7 +393,7 @@ class Gen:
 
                 def run(X):
                     m.fit(X)
-                    return state(m)
+                    return fitted_then_used(m, X)
                 return run
             for kind, a in self.array_kinds(U):
                 yield self.mk(entry, tag, kind, make_fn, lambda a=a: {'X': a}, ['X'])
@@ -419,7 +419,7 @@ class Gen:
 
                 def run(X):
                     m.fit(X)
-                    return state(m)
+                    return fitted_then_used(m, X)
                 return run
             kinds = self.vec_kinds(x, lists=True)
             const = np.full(20, 3.5)
@@ -452,7 +452,7 @@ class Gen:
 
                     def run(X):
                         m.fit(X)
-                        return state(m)
+                        return fitted_then_used(m, X)
                     return run
                 kinds = [('DataFrame', df), ('DataFrame-int-index', df.set_index(pd.Index(range(100, 100 + len(df)))))]
                 kinds += [(k, a) for k, a in self.array_kinds(df.to_numpy())]
@@ -485,7 +485,7 @@ class Gen:
 
                     def run(X, truncated=3):
                         m.fit(X, truncated=truncated)
-                        return state(m)
+                        return fitted_then_used(m, X)
                     return run
                 for kind, a in (('DataFrame', df), ('DataFrame-strcols', df.rename(columns=str.upper))):
                     yield self.mk(entry, tag, kind, make_fn, lambda a=a: {'X': a}, ['X'])
@@ -591,6 +591,20 @@ class Gen:
 def state(obj):
     """a comparable snapshot of a model after `fit`"""
     return copy.deepcopy(obj)
+
+
+def fitted_then_used(m, X):
+    """history: after `fit(X)` keep using the model (the argument must stay intact through later calls that
+    do not receive it); returns the snapshot taken right after the fit"""
+    st = state(m)
+    for name, args in (('sample', (3,)), ('cumulative_distribution', (X,)), ('probability_density', (X,)),
+                       ('sample', (2,))):
+        try:
+            with np.errstate(all='ignore'):
+                getattr(m, name)(*args)
+        except Exception:      # noqa
+            pass
+    return st
 
 
 WRITE_MSGS = ('assignment destination is read-only', 'output array is read-only', 'array is read-only',
@@ -739,7 +753,7 @@ def run(ctx, lean):
     ctx.ob('corr:decode+flatten', bad is None, 'tie', bad or f'{len(an.entries)} entry points: Lean flatten of the '
            'decoded module = independent Python linking of the IR')
     # ---- (b) dynamic validation
-    obs = sweep(ctx, 'tie', 1)
+    obs = sweep(ctx, 'tie', 1 if ctx.scale == 1 else 3)
     ctx._c20_obs = obs
     subset_bad, accept_bad, static_only, reuse_bad, imprecise = None, None, [], None, []
     uncovered = []
